@@ -56,6 +56,10 @@ type Pkg struct {
 	Ignore  bool     `json:"ignore,omitempty"` // a second file with @ignore() importing Extra
 	Extra   string   `json:"extra,omitempty"`
 	Tool    bool     `json:"tool,omitempty"` // a _tool.cue file importing Extra
+	// Up: an import made by a file of the same package that lies at the module root, with the
+	// directories in between holding no file of the package (a package consists of the files
+	// of that name in its directory and in every directory above it).
+	Up string `json:"up,omitempty"`
 }
 
 type ModVer struct {
@@ -313,10 +317,22 @@ func gen(seed uint64, tier string, idx int) sim.CaseI {
 			if twinB != nil && m.base == twinB.base {
 				mv.Pkgs[0].Imports = append(mv.Pkgs[0].Imports, twinD.base+"/"+twinD.dirs[0])
 			}
+			for k := range mv.Pkgs {
+				if strings.Contains(mv.Pkgs[k].Dir, "/") && wr.Bool(0.35) {
+					o := mps[wr.Intn(len(mps))]
+					if o.base != m.base {
+						mv.Pkgs[k].Up = o.base + "/" + o.dirs[wr.Intn(len(o.dirs))] + o.path[strings.LastIndex(o.path, "@"):]
+					}
+				}
+			}
 			// a published module lists the modules its imports need (at some version)
 			seen := map[string]bool{}
 			for _, p := range mv.Pkgs {
-				for _, imp := range p.Imports {
+				imps := p.Imports
+				if p.Up != "" {
+					imps = append(append([]string{}, imps...), p.Up)
+				}
+				for _, imp := range imps {
 					for _, o := range mps {
 						if o.base != m.base && strings.HasPrefix(imp, o.base+"/") && !seen[o.path] && (strings.HasSuffix(imp, o.path[strings.LastIndex(o.path, "@"):]) || !strings.Contains(imp, "@")) {
 							if wr.Bool(0.9) {
@@ -462,6 +478,9 @@ func pkgFiles(prefix, pkgName string, p Pkg) map[string]string {
 	}
 	if p.Tool && p.Extra != "" {
 		out[dir+"x_tool.cue"] = fmt.Sprintf("package %s\nimport _ %q\n", pkgName, p.Extra)
+	}
+	if p.Up != "" {
+		out[prefix+"anc_"+pkgName+".cue"] = fmt.Sprintf("package %s\nimport _ %q\n", pkgName, p.Up)
 	}
 	return out
 }
@@ -922,6 +941,9 @@ func renamed(c *Case) *Case {
 		if pk.Extra != "" {
 			pk.Extra = ren(pk.Extra)
 		}
+		if pk.Up != "" {
+			pk.Up = ren(pk.Up)
+		}
 	}
 	for i := range d.Mods {
 		for j := range d.Mods[i].Pkgs {
@@ -1286,6 +1308,10 @@ func resolves(c *Case, u *universe, o tidyOutcome, cnt map[string]int) *sim.Viol
 						for _, imp := range pk.Imports {
 							todo = append(todo, item{imp, false, m.path + "/" + dir})
 						}
+					}
+					// files of the same package at the module root belong to it too
+					if pk.Up != "" && pkgName(pk.Dir, "root") == pkgName(dir, "root") {
+						todo = append(todo, item{pk.Up, false, m.path + "/" + dir + " (file at the module root)"})
 					}
 				}
 				break
